@@ -18,6 +18,15 @@ GridT == [ kf |-> {<<1, 2>>, <<3, 1>>, <<1, 10>>}, kb |-> {<<1, 3>>, <<2, 1>>, <
            r |-> {<<1, 10>>, <<3, 1>>, <<1, 1>>}, p |-> {<<0, 1>>, <<1, 2>>},
            fr |-> {<<1, 1>>, <<5, 2>>, <<1, 5>>}, fp |-> {<<2, 1>>},
            fv |-> {<<1, 2>>, <<2, 1>>, <<1, 10>>}, n |-> {<<1, 1>>, <<2, 1>>} ]
+(* stiff / late slice: diffusion-limited rate constants, millimolar concentrations, times from *)
+(* half a millisecond to a thousand seconds - every exponential of the closed forms has long     *)
+(* saturated (k*c*t from 1e2 to 1e9); major is the more abundant reactant as documented          *)
+GridS == [ kf |-> {<<1000000000, 1>>}, kb |-> {<<1000, 1>>}, k |-> {<<2, 1>>, <<1000000, 1>>},
+           prod |-> {<<0, 1>>, <<1, 2000>>}, major |-> {<<1, 500>>}, minor |-> {<<1, 10000>>},
+           initial_C |-> {<<1, 1000>>}, t0 |-> {<<0, 1>>},
+           r |-> {<<1, 10000>>, <<1, 500>>}, p |-> {<<1, 2000>>}, fr |-> {<<1, 1000>>},
+           fp |-> {<<1, 2000>>}, fv |-> {<<2, 1>>}, n |-> {<<1, 1>>, <<2, 1>>} ]
+TimesS == {<<1, 2000>>, <<1, 1>>, <<1000, 1>>}
 TimesQ == {<<0, 1>>, <<1, 3>>, <<2, 1>>}
 TimesT == {<<0, 1>>, <<1, 3>>, <<2, 1>>, <<5, 1>>}
 B_All == AllBackends
